@@ -78,6 +78,11 @@ func checkCall(in *Inst, o *Outcome, cf *callFacts, call int, minSeq int, res *C
 	for _, msg := range checkBinding(in.W, o.Events, BindingOpts{AllowedCalls: map[int]bool{call: true}, MinSeq: minSeq}) {
 		res.violate("C01", "binding/"+bindingKind(msg), msg, detail())
 	}
+	if o.Touched != "" {
+		// the caller's option list is no longer what the caller wrote: the
+		// next call given the same list is not given the same values
+		res.violate("C01", "caller-option-slice-written", "Call wrote into the caller's option slice: "+o.Touched, detail())
+	}
 	if o.Class == ClsPanic {
 		return
 	}
